@@ -259,6 +259,14 @@ class QFDriver:
                     self.feats.add("resize_with>=4")
                 self.feats.add("resize_up" if target > oldq else "resize_down" if target < oldq else "resize_same")
             ctx.op("resize", newq, status)
+        elif kind == "merge_self":
+            # the union of a set with itself: merging a filter into itself must leave it as it is (the library iterates over the
+            # argument while inserting into the receiver - here they are the same object)
+            if (not o.auto_expand and False) or len(self.model) > 0.7 * o.size and o.quotient >= self.maxq:
+                return self.step(["remove", 0, 0])
+            self.call(o.merge, o)
+            self.feats.add("merge_with_itself")
+            ctx.op("merge_self")
         elif kind == "merge":
             hs = [self.H(t, r) for t, r in op[1]]
             q2 = op[2]
@@ -378,6 +386,7 @@ def case_strategy(tier, max_ops=60):
             st.tuples(st.just("merge"), st.lists(st.tuples(ti, ri), max_size=6), st.integers(3, 6)),
             st.tuples(st.sampled_from(["raw_add", "raw_remove"]), st.integers(0, 2 ** 32 - 1)),
             st.tuples(st.just("lsr"), st.integers(0, 40), ti, ri),
+            st.tuples(st.just("merge_self")),
         ]
         return {
             "q": q, "auto": draw(st.booleans()), "dense": dense,
